@@ -10,28 +10,18 @@ class Reject(Exception):
     pass
 
 
+import re as _re
+
+_TOKEN = _re.compile(r"[()]|[^\s()]+")
+
+
 def tokens(text: str):
     out = []
     for line in text.replace("\r\n", "\n").replace("\r", "\n").split("\n"):
         i = line.find(";")
         if i >= 0:
             line = line[:i]
-        line = line.lower()
-        cur = []
-        for ch in line:
-            if ch in "()":
-                if cur:
-                    out.append("".join(cur))
-                    cur = []
-                out.append(ch)
-            elif ch.isspace():
-                if cur:
-                    out.append("".join(cur))
-                    cur = []
-            else:
-                cur.append(ch)
-        if cur:
-            out.append("".join(cur))
+        out.extend(_TOKEN.findall(line.lower()))
     return out
 
 
